@@ -472,7 +472,11 @@ fn submit(job: Job) -> Done {
             *e = Some(Executor { tx, rx, cancel });
         }
         let ex = e.as_ref().unwrap();
-        ex.tx.send(job).expect("executor thread gone");
+        const DIED: &str = "panic: the executor thread died (a panic escaped the simulated execution, e.g. a second panic while unwinding)";
+        if ex.tx.send(job).is_err() {
+            *e = None;
+            return Done { out: SchedOut::default(), failure: Some(DIED.to_string()) };
+        }
         match ex.rx.recv_timeout(std::time::Duration::from_secs(watchdog_secs())) {
             Ok(d) => d,
             Err(std::sync::mpsc::RecvTimeoutError::Timeout) => {
@@ -482,7 +486,10 @@ fn submit(job: Job) -> Done {
                 *e = None;
                 Done { out: SchedOut::default(), failure: Some(format!("{WATCHDOG_MSG} within {} s", watchdog_secs())) }
             }
-            Err(std::sync::mpsc::RecvTimeoutError::Disconnected) => panic!("executor thread gone"),
+            Err(std::sync::mpsc::RecvTimeoutError::Disconnected) => {
+                *e = None;
+                Done { out: SchedOut::default(), failure: Some(DIED.to_string()) }
+            }
         }
     })
 }
@@ -495,11 +502,11 @@ pub fn simulate<T: Send + 'static>(spec: &SchedSpec, f: impl FnOnce() -> T + Sen
         spec: spec.clone(),
         f: Box::new(move || {
             let v = f();
-            *slot2.lock().unwrap() = Some(v);
+            *slot2.lock().unwrap_or_else(|p| p.into_inner()) = Some(v);
         }),
     });
     let value = match done.failure {
-        None => match slot.lock().unwrap().take() {
+        None => match slot.lock().unwrap_or_else(|p| p.into_inner()).take() {
             Some(v) => Ok(v),
             None => Err(Failure::Panic("simulated execution produced no value".into())),
         },
